@@ -161,7 +161,7 @@ Definition opPlusEq_i64 (x l : Z) : Z :=
   if 0 <? sgn then mpz_add_ui x (to_u64 l) else mpz_sub_ui x (neg_u64 (to_u64 l)).
 (*@ opPlusEq_u32 | src/kernel/gmp++/gmp++_int.h | giv_all_inlined Integer& operator += (const uint32_t n) | 491105615d0f *)
 Definition opPlusEq_u32 (x n : Z) : Z := opPlusEq_u64 x (u32_to_u64 n).
-(*@ opPlusEq_i32 | src/kernel/gmp++/gmp++_int.h | giv_all_inlined Integer& operator += (const int32_t n) | 491105615d0f *)
+(*@ opPlusEq_i32 | src/kernel/gmp++/gmp++_int.h | giv_all_inlined Integer& operator += (const int32_t n) | d76d57ff689f *)
 Definition opPlusEq_i32 (x n : Z) : Z := opPlusEq_i64 x (i32_to_i64 n).
 (* template<class XXX> operator+=(const XXX&) : Caster<Integer>(n), here for XXX = int16_t / uint16_t *)
 (*@ opPlusEq_T | src/kernel/gmp++/gmp++_int.h | Integer& operator +=(const XXX& n) | c0ad6e1bba75 *)
@@ -224,7 +224,7 @@ Definition sub_i64 (n1 n2 : Z) : Z :=
 (*@ sub_u64 | src/kernel/gmp++/gmp++_int_sub.C | Integer& Integer::sub(Integer& res, const Integer& n1, const uint64_t n2) | d2a4b0f371c5 *)
 Definition sub_u64 (n1 n2 : Z) : Z :=
   if isZero_I n1 then negin (ctor_u64 n2) else if isZero_u64 n2 then n1 else mpz_sub_ui n1 n2.
-(*@ sub_i32 | src/kernel/gmp++/gmp++_int.h | static giv_all_inlined Integer& sub (Integer& res, const Integer& n1, const int32_t n2) | 2286dae7aba8 *)
+(*@ sub_i32 | src/kernel/gmp++/gmp++_int.h | static giv_all_inlined Integer& sub (Integer& res, const Integer& n1, const int32_t n2) | 3963d04520ec *)
 Definition sub_i32 (n1 n2 : Z) : Z := sub_i64 n1 (i32_to_i64 n2).
 (*@ sub_u32 | src/kernel/gmp++/gmp++_int.h | static giv_all_inlined Integer& sub (Integer& res, const Integer& n1, const uint32_t n2) | 2286dae7aba8 *)
 Definition sub_u32 (n1 n2 : Z) : Z := sub_u64 n1 (u32_to_u64 n2).
